@@ -434,7 +434,8 @@ func (h *Hooks) Point(ctx context.Context, name string, args []string) {
 		if label := h.rawLabel(tmp); label != "" {
 			d := h.S.YieldCurrentAs("rename", label)
 			if d.Fault == "rename-err" {
-				h.setRenameFault(tmp, d.Salt%2 == 0)
+				// raw mode: no wrapper will put the destination back, so only the vanishing temp file
+				h.setRenameFault(tmp, true)
 			}
 		}
 		h.mu.Lock()
@@ -490,7 +491,8 @@ func (h *Hooks) Fault(ctx context.Context, name string, arg string, err error) e
 			return d.Err("close " + label)
 		}
 		if d.Fault == "rename-err" {
-			h.setRenameFault(arg, d.Salt%2 == 0)
+			// raw mode: no wrapper will put the destination back, so only the vanishing temp file
+			h.setRenameFault(arg, true)
 		}
 		return err
 	}
